@@ -245,6 +245,7 @@ void rt_free(void *p, uintptr_t pc)
 
 using namespace rksim;
 
+#ifndef RKSIM_ASAN_LANE
 #define RA ((uintptr_t)__builtin_return_address(0))
 
 void *operator new(size_t n)
@@ -292,3 +293,4 @@ void operator delete(void *p, size_t, std::align_val_t) noexcept { rt_free(p, RA
 void operator delete[](void *p, size_t, std::align_val_t) noexcept { rt_free(p, RA); }
 void operator delete(void *p, const std::nothrow_t &) noexcept { rt_free(p, RA); }
 void operator delete[](void *p, const std::nothrow_t &) noexcept { rt_free(p, RA); }
+#endif  // RKSIM_ASAN_LANE
